@@ -454,7 +454,7 @@ class Interp:
         base = '%s.loop#%d' % (self.vc.qual, k)
         ix = spec.get('index', '_i')
         entry_env = dict(self.env)
-        ghost_entry = dict(self.ghost)
+        self.ghost.setdefault('loop_entry', {})[k] = entry_env
 
         def inv_env(i_term):
             e = {ix: VInt(i_term)}
@@ -513,7 +513,10 @@ class Interp:
             except ContinueLoop:
                 pass
             except BreakLoop:
-                return  # continue after the loop with the state at the break
+                # continue after the loop with the state at the break
+                self.ghost.setdefault('loop_left_at', {})[k] = i
+                self.ghost['loop_index'] = None
+                return
             for j, ea in enumerate(spec.get('each', [])):
                 # per-element postcondition of this iteration (lifted to all elements at exit)
                 self.oblige('%s.each[%d]' % (base, j), self.spec_bool(ea, inv_env(i)),
@@ -527,6 +530,7 @@ class Interp:
             raise PathEnd()
         # exit
         self.ghost['loop_index'] = None
+        self.ghost.setdefault('loop_left_at', {})[k] = i
         if it is not None:
             self.assume(i == seqlen)
         else:
